@@ -17,7 +17,7 @@ FnFailed(e) ==
           \cup (IF e.rtv.ok /\ ~Conforms(e.r.val.ty, e.rtv.t) THEN {"C11.ResultConformsDynamic"} ELSE {})
           \cup (IF ~e.rtv.ok THEN {"C11.ValuePredictionRejectsSuccess"} ELSE {})
           \cup (IF AllWhollyKnown(e.a) /\ ~e.rt.ok THEN {"C11.KnownSuccessNotRejectedStatically"} ELSE {})
-          \cup (IF ~WellFormed(e.r.val) THEN {"C06.WellFormed"} ELSE {})
+          \cup (IF ~WellFormedR(e.r) THEN {"C06.WellFormed"} ELSE {})
           \cup (IF AllWhollyKnown(e.a) /\ NoMarksIn(e.a) /\ ~WhollyKnown(e.r.val) THEN {"C12.KnownInKnownOut"} ELSE {})
         ELSE {})
 FnNontrivial(e) == e.r.ok
